@@ -446,7 +446,8 @@ class World(object):
             for lf in leaves:
                 if lf.__class__ is AsyncTask or isinstance(lf, AsyncTask):
                     otid = self.tid_of.get(id(lf))
-                    if otid is not None and self.steps.get(otid, 0) == 0 and otid not in self.groups:
+                    if otid is not None and self.steps.get(otid, 0) == 0 and otid not in self.groups \
+                            and all(m[0] != otid for m in members):
                         members.append((otid, pos))
                 pos += 1
             if len(members) > 1:
@@ -501,7 +502,7 @@ class World(object):
                 self.register_task(sc.tid, r)
                 self.shared_tasks[idx] = r
         elif op == "re":
-            return made[lf[2]]
+            return made[lf[2] % len(made)] if made else None
         else:
             raise ValueError(op)
         made.append(r)
@@ -747,6 +748,10 @@ class World(object):
                 pass
         self.waitstack.pop()
         self.outcome = out
+        if out[0] == "err":
+            rt = self.tasks.get(root.tid)
+            if rt is not None and rt.is_computed() and rt._error is not self.exc:
+                self.v("error-identity", "value() raised %r but the task's error() is %r" % (self.exc, rt._error))
         self.post_checks()
         return out
 
